@@ -178,7 +178,12 @@ def run(tier, replay):
             vecs = allv
     root = tempfile.mkdtemp(prefix="wvcli.", dir="/var/tmp")
     try:
-        template = make_template(exe, root)
+        try:
+            template = make_template(exe, root)
+        except wv.Infra as e:
+            # the plainest well-formed command line (-e -i F -o E -k K --cmode 1) does not succeed: that is the property, not the machinery
+            res.violation("the fixture command line `Wencry -e -i F.bin -o E.wenc -k <key> --cmode 1` failed or crashed: %s" % str(e)[-500:], {"vector": {"tokens": ["e", "iF", "oO", "kK"], "class": "OK"}})
+            return res.finish()
         with cf.ThreadPoolExecutor(14) as ex:
             events = list(ex.map(lambda iv: one_vector(exe, template, root, iv[0], iv[1]), enumerate(vecs)))
         if tier == "thorough" and not replay:
